@@ -8,6 +8,7 @@
 #define NRAISE 1
 #endif
 #define NF (NRAISE + 1)
+#define K_CHECK_EARLY_WAKE
 #include "kernel_contract.h"
 #include "fiber_signal.h"
 #ifndef NWAITS
